@@ -9,13 +9,17 @@ From LMTransfac Require Import Bytes Nom TransfacParse.
 Import ListNotations.
 Local Open Scope byte_scope.
 
-Record prow := mkRow { pr_label : str; pr_toks : list str }.
+(* a count row: label, count tokens, and the text after the last count (e.g. blanks and the
+   consensus letter of TRANSFAC files; may be empty) *)
+Record prow := mkRow { pr_label : str; pr_toks : list str; pr_tail : str }.
 
 Record prec := mkPrec {
   p_id : option str;
   p_ac : option str;
   p_na : option str;
   p_de : option str;
+  p_po : bool;                (* the matrix header is spelled "PO" (else "P0") *)
+  p_sep : str;                (* blanks/tabs written before every symbol and every count *)
   p_syms : str;               (* symbol letters of the P0 line, in file order; [] = no matrix *)
   p_rows : list prow }.
 
@@ -29,20 +33,20 @@ Definition print_field (a b : byte) (eol : str) (v : option str) : str :=
   | Some x => [a; b; " "; " "] ++ x ++ eol ++ xx_line eol
   end.
 
-Definition print_row (eol : str) (r : prow) : str :=
-  pr_label r ++ flat_map (fun t => [" "; " "] ++ t) (pr_toks r) ++ eol.
+Definition print_row (eol sep : str) (r : prow) : str :=
+  pr_label r ++ flat_map (fun t => sep ++ t) (pr_toks r) ++ pr_tail r ++ eol.
 
-Definition print_matrix (eol : str) (syms : str) (rows : list prow) : str :=
+Definition print_matrix (eol : str) (po : bool) (sep syms : str) (rows : list prow) : str :=
   match syms with
   | [] => []
-  | _ => ["P"; "0"] ++ flat_map (fun c => [" "; " "; " "; " "; " "; " "; c]) syms ++ eol
-         ++ flat_map (print_row eol) rows ++ xx_line eol
+  | _ => ["P"; if po then "O" else "0"] ++ flat_map (fun c => sep ++ [c]) syms ++ eol
+         ++ flat_map (print_row eol sep) rows ++ xx_line eol
   end.
 
 Definition print_body (eol : str) (r : prec) : str :=
   print_field "A" "C" eol (p_ac r) ++ print_field "I" "D" eol (p_id r) ++
   print_field "N" "A" eol (p_na r) ++ print_field "D" "E" eol (p_de r) ++
-  print_matrix eol (p_syms r) (p_rows r).
+  print_matrix eol (p_po r) (p_sep r) (p_syms r) (p_rows r).
 
 (* a record with its "//" line; [term] = the line ending after "//" (possibly none for the last) *)
 Definition print_record (eol term : str) (r : prec) : str :=
@@ -97,16 +101,15 @@ Definition ofield_ok (o : option str) : bool :=
 Definition label_ok (l : str) : bool :=
   match u32 l with POk _ [] => true | _ => false end.
 
-(* a count: digits, optionally followed by '.' and digits *)
-Definition all_digits (s : str) : bool :=
-  match s with [] => false | _ => forallb is_digit s end.
+(* plain bytes: ASCII other than the line feed *)
+Definition plain (b : byte) : bool := N.ltb (bN b) 128 && negb (is_nl b).
+
+(* a count: any text that nom's float parser (parse_element) accepts entirely -- digits,
+   optional fraction / exponent / sign, nan, inf -- and that does not start with a blank *)
 Definition token_ok (t : str) : bool :=
-  let '(ip, r) := span is_digit t in
-  match ip, r with
-  | _ :: _, [] => true
-  | _ :: _, "." :: fp => all_digits fp
-  | _, _ => false
-  end.
+  match t with [] => false | b :: _ => negb (is_blank b) end &&
+  forallb plain t &&
+  match float_token t with POk v [] => str_eqb v t | _ => false end.
 
 Fixpoint nodupb (l : str) : bool :=
   match l with
@@ -114,8 +117,17 @@ Fixpoint nodupb (l : str) : bool :=
   | c :: t => negb (existsb (beq c) t) && nodupb t
   end.
 
+(* the column separator: at least one blank or tab *)
+Definition sep_ok (sep : str) : bool :=
+  match sep with [] => false | _ => forallb is_blank sep end.
+
+(* the text after the last count of a row: one line, valid UTF-8, empty or starting with a blank *)
+Definition tail_ok (tl : str) : bool :=
+  no_nl tl && utf8_valid tl && match tl with [] => true | b :: _ => is_blank b end.
+
 Definition row_ok (k : nat) (r : prow) : bool :=
-  label_ok (pr_label r) && Nat.eqb (length (pr_toks r)) k && forallb token_ok (pr_toks r).
+  label_ok (pr_label r) && Nat.eqb (length (pr_toks r)) k && forallb token_ok (pr_toks r) &&
+  tail_ok (pr_tail r).
 
 Definition prec_ok (al : alpha) (r : prec) : bool :=
   ofield_ok (p_id r) && ofield_ok (p_ac r) && ofield_ok (p_na r) && ofield_ok (p_de r) &&
@@ -123,7 +135,7 @@ Definition prec_ok (al : alpha) (r : prec) : bool :=
   | [] => match p_rows r with [] => true | _ => false end
   | syms =>
       match sym_indices al syms with Some _ => true | None => false end &&
-      nodupb syms &&
+      nodupb syms && sep_ok (p_sep r) &&
       match p_rows r with [] => false | _ => true end &&
       forallb (row_ok (length syms)) (p_rows r)
   end.
